@@ -13,6 +13,7 @@ Expression evaluation lives in absint_expr.py, calls/builtins in absint_call.py.
 from __future__ import annotations
 
 import ast
+import re
 from dataclasses import dataclass, field, replace
 from typing import Dict, List, Optional
 
@@ -87,6 +88,8 @@ def env_join(a, b):
     for k in set(a) | set(b):
         if k in (PC, LT):
             out[k] = bool(a.get(k)) or bool(b.get(k))
+        elif k in ("$keys", "$mem"):
+            out[k] = (a.get(k) or frozenset()) & (b.get(k) or frozenset())
         elif k == "$guards":
             ga, gb = a.get(k) or {}, b.get(k) or {}
             out[k] = {n: g for n, g in ga.items() if n in gb and gb[n][0] is g[0]}
@@ -253,7 +256,7 @@ class InterpBase:
             frame.yields = join(frame.yields, v)
             return env
         self.ev(st.value, env, frame)
-        return env
+        return self.post_success(st.value, dict(env))
 
     def x_Pass(self, st, env, frame):
         return env
@@ -307,8 +310,22 @@ class InterpBase:
         self.raise_exc(frame, name, st, env, tainted, reason="explicit raise")
         return None
 
+    def post_success(self, expr, env):
+        """`X["k"]` evaluated without raising: X is a mapping (narrow an input node)."""
+        for n in uncond_nodes(expr):
+            if isinstance(n, ast.Subscript) and isinstance(n.value, ast.Name) and isinstance(n.slice, ast.Constant) and isinstance(n.slice.value, str):
+                cur = env.get(n.value.id)
+                if cur is not None and cur.is_json:
+                    from .aval import narrow_json
+                    nv = narrow_json(cur, {"dict"})
+                    if not nv.is_bottom:
+                        env[n.value.id] = nv
+                        env["$keys"] = (env.get("$keys") or frozenset()) | {(n.value.id, n.slice.value)}
+        return env
+
     def x_Assign(self, st, env, frame):
         v = self.ev(st.value, env, frame)
+        env = self.post_success(st.value, dict(env))
         for t in st.targets:
             env = self.assign(t, v, env, frame, st, value_node=st.value)
         return env
@@ -378,8 +395,20 @@ class InterpBase:
         it = self.ev(st.iter, env, frame)
         self.iter_ops(it, st.iter, env, frame)
         el = self.iter_elem(it, st.iter, env, frame)
+        ks = key_source(st.iter, it)
+        if ks and not el.is_bottom and el.kof is None:
+            el = replace(el, kof=ks)
+        es = enum_source(st.iter)
+        if es and el.tup is not None and len(el.tup) == 2:
+            el = replace(el, tup=(replace(el.tup[0], kof=es), el.tup[1]))
         pre_lt = env.get(LT)
         loop_env = dict(env)
+        src = or_empty_source(st.iter)
+        if src and src in loop_env:
+            # `for .. in f(X or <empty>)`: the body runs only when X is truthy
+            nv = self._truthy_part(loop_env[src])
+            if not nv.is_bottom:
+                loop_env[src] = nv
         if it.taint > 0:
             loop_env[LT] = True
         exit_env = None if it.nonempty else dict(env)
@@ -494,6 +523,16 @@ class InterpBase:
         if isinstance(target, ast.Name):
             env = dict(env)
             env[target.id] = clip(v)
+            nm = target.id
+            if env.get("$keys"):
+                env["$keys"] = frozenset(f for f in env["$keys"] if f[0] != nm)
+            if env.get("$mem"):
+                pat = re.compile(r"\b" + re.escape(nm) + r"\b")
+                kept = frozenset(f for f in env["$mem"] if not pat.search(f[0]) and f[1] != nm)
+                if value_node is not None and not aug:
+                    vt = norm(value_node)
+                    kept |= frozenset((nm, f[1]) for f in env["$mem"] if f[0] == vt and f[1] != nm)
+                env["$mem"] = kept
             guards = env.get("$guards")
             if guards and target.id in {n for g in guards.values() for n in g[1]}:
                 env["$guards"] = {k: g for k, g in guards.items() if target.id not in g[1]}
@@ -531,7 +570,14 @@ class InterpBase:
         if isinstance(target, ast.Subscript):
             base = self.ev(target.value, env, frame)
             k = self.ev(target.slice, env, frame)
-            self.store_subscript(target, base, k, v, env, frame, st)
+            if k.kof is not None and k.kof == norm(target.value):
+                self.event("mut", frame, st, how="subscript-store", target=base.short(), org=sorted(base.org), types=sorted(base.types))
+                self.record_store(frame, st, base, v)
+            else:
+                self.store_subscript(target, base, k, v, env, frame, st)
+            if isinstance(target.value, ast.Name) and k.has_const and isinstance(k.const_value(), (str, int)):
+                env = dict(env)
+                env["$keys"] = (env.get("$keys") or frozenset()) | {(target.value.id, k.const_value())}
             if isinstance(target.value, ast.Name) and target.value.id in env:
                 cur = env[target.value.id]
                 e = join(cur.elem, v) if cur.elem is not None else (join(join_all(cur.tup), v) if cur.tup else v)
@@ -575,7 +621,8 @@ class InterpBase:
         self.event("mut", frame, st, how="subscript-store", target=base.short(), org=sorted(base.org), types=sorted(base.types))
         self.record_store(frame, st, base, v)
         if base.is_json and base.taint == 2:
-            self.raise_many(frame, ("TypeError", "IndexError"), st, env, True, reason="subscript store on input node of unknown type")
+            excs = ("TypeError",) if k.only("str") else ("TypeError", "IndexError")
+            self.raise_many(frame, excs, st, env, True, reason="subscript store on input node of unknown type")
         for cq in base.inst_classes():
             c = self.prog.classes.get(cq)
             f = c.lookup_method("__setitem__") if c else None
@@ -597,6 +644,71 @@ def _names_in(node):
         hit = (node, frozenset(n.id for n in ast.walk(node) if isinstance(n, ast.Name)))
         _NAMES_CACHE[id(node)] = hit
     return hit[1]
+
+
+def uncond_nodes(expr):
+    """Sub-expressions evaluated whenever `expr` is evaluated without raising."""
+    stack = [expr]
+    while stack:
+        n = stack.pop()
+        yield n
+        if isinstance(n, ast.IfExp):
+            stack.append(n.test)
+        elif isinstance(n, ast.BoolOp):
+            stack.append(n.values[0])
+        elif isinstance(n, (ast.Lambda,)):
+            continue
+        elif isinstance(n, (ast.ListComp, ast.SetComp, ast.DictComp, ast.GeneratorExp)):
+            stack.append(n.generators[0].iter)
+        else:
+            stack.extend(ast.iter_child_nodes(n))
+
+
+_WRAPPERS = {"list", "tuple", "sorted", "iter", "reversed", "set"}
+
+
+def _unwrap_iter(e):
+    while True:
+        if isinstance(e, ast.Call) and isinstance(e.func, ast.Name) and e.func.id in _WRAPPERS and len(e.args) == 1:
+            e = e.args[0]
+        else:
+            return e
+
+
+def or_empty_source(e):
+    """Name X when e is f(.. (X or <empty display>) ..) with emptiness-preserving wrappers."""
+    e = _unwrap_iter(e)
+    if isinstance(e, ast.Call) and isinstance(e.func, ast.Attribute) and e.func.attr in ("keys", "values", "items") and not e.args:
+        e = e.func.value
+    e = _unwrap_iter(e)
+    if isinstance(e, ast.BoolOp) and isinstance(e.op, ast.Or) and len(e.values) == 2 and isinstance(e.values[0], ast.Name):
+        alt = e.values[1]
+        if isinstance(alt, (ast.Dict, ast.List, ast.Tuple, ast.Set)) and not (getattr(alt, "elts", None) or getattr(alt, "keys", None)):
+            return e.values[0].id
+    return None
+
+
+def enum_source(e):
+    """Text of E when e is enumerate(E): the index is a valid index of E."""
+    if isinstance(e, ast.Call) and isinstance(e.func, ast.Name) and e.func.id == "enumerate" and len(e.args) == 1 and not e.keywords:
+        return norm(e.args[0])
+    return None
+
+
+def key_source(e, it=None):
+    """Name X when iterating e yields keys of the mapping bound to X."""
+    e = _unwrap_iter(e)
+    explicit = False
+    if isinstance(e, ast.Call) and isinstance(e.func, ast.Attribute) and e.func.attr == "keys" and not e.args:
+        e = e.func.value
+        e = _unwrap_iter(e)
+        explicit = True
+    if isinstance(e, ast.BoolOp) and isinstance(e.op, ast.Or) and isinstance(e.values[0], ast.Name):
+        e = e.values[0]
+    if isinstance(e, ast.Name):
+        if explicit or it is None or it.types & {"dict", "json"}:
+            return e.id
+    return None
 
 
 def _as_load(t):
